@@ -246,6 +246,102 @@ def not_cast(x):
     return jnp.floor(x)
 
 
+# two DIFFERENT decorated targets that export under the same display name
+@boundary(type="SameName")
+def sn_scale(x):
+    return x * 3.0
+
+
+@boundary(type="SameName")
+def sn_shift(x):
+    return jnp.tanh(x) + 5.0
+
+
+@boundary(type="SameName")
+def sn_outer(x):
+    return sn_shift(x) * 0.5 + sn_scale(x)
+
+
+@boundary(type="SameBlock")
+class BlkMul(nnx.Module):
+    def __init__(self, k):
+        self.k = k
+
+    def __call__(self, x):
+        return x * self.k
+
+
+@boundary(type="SameBlock")
+class BlkAdd(nnx.Module):
+    def __init__(self, k):
+        self.k = k
+
+    def __call__(self, x):
+        return jnp.sin(x) + self.k
+
+
+@boundary(unique=True, type="SameU")
+def snu_a(x):
+    return x * 2.0
+
+
+@boundary(unique=True, type="SameU")
+def snu_b(x):
+    return x - 7.0
+
+
+def _factory(tag, fn):
+    """classes with the same __name__ coming from different (virtual) modules"""
+    class FBlock(nnx.Module):
+        def __call__(self, x):
+            return fn(x)
+    FBlock.__module__ = f"{__name__}.{tag}"
+    return boundary(FBlock)
+
+
+FBlockA = _factory("fa", lambda x: x * 4.0)
+FBlockB = _factory("fb", lambda x: jnp.cos(x) - 1.0)
+
+
+# one callable, several sites, same operand types, DIFFERENT call-site constants passed as operands
+@boundary
+def add_offset(x, offset):
+    return x + jnp.broadcast_to(offset, x.shape)
+
+
+@boundary
+def write_row(buf, row, pos):
+    return lax.dynamic_update_slice(buf, row, (pos, jnp.zeros_like(pos)))
+
+
+@boundary
+def masked(x, mask):
+    return jnp.where(mask, x, -x)
+
+
+@boundary
+def pick(x, idx):
+    return jnp.take(x, idx, axis=1)
+
+
+@boundary
+def affine(x, w):
+    return x * w + w
+
+
+@boundary
+def clipk(x, lo):
+    return jnp.maximum(x, lo) * jnp.sum(lo)
+
+
+OFF_A, OFF_B = jnp.asarray(1.5, jnp.float32), jnp.asarray(-4.0, jnp.float32)
+P0, P1 = jnp.asarray(0, jnp.int32), jnp.asarray(1, jnp.int32)
+MASK_A = jnp.asarray([[True, False, True], [False, False, True]])
+MASK_B = jnp.asarray([[False, True, True], [True, False, False]])
+IDX_A, IDX_B = jnp.asarray([0, 2], jnp.int32), jnp.asarray([1, 1], jnp.int32)
+W_A = jnp.asarray([1.0, 2.0, 3.0], jnp.float32)
+W_B = jnp.asarray([-1.0, 0.5, 4.0], jnp.float32)
+
 # ------------------------------------------------------------------------------------------- instances
 a2, a3, a2_add, a2_twin = Scale(2.0), Scale(3.0), Scale(2.0, "add"), Scale(2.0)
 sub2 = SubScale(2.0)
@@ -281,6 +377,12 @@ TARGETS = {
     "two_in": ("two_in", False, False), "unused_in": ("unused_in", False, False),
     "const_out": ("const_out", False, False), "with_global": ("with_global", False, False),
     "ufn": ("ufn", True, False),
+    "sn_scale": ("SameName", False, False), "sn_shift": ("SameName", False, False), "sn_outer": ("SameName", False, False),
+    "BlkMul": ("SameBlock", False, True), "BlkAdd": ("SameBlock", False, True),
+    "snu_a": ("SameU", True, False), "snu_b": ("SameU", True, False),
+    "FBlockA": ("FBlock", False, True), "FBlockB": ("FBlock", False, True),
+    "add_offset": ("add_offset", False, False), "write_row": ("write_row", False, False), "masked": ("masked", False, False),
+    "pick": ("pick", False, False), "affine": ("affine", False, False), "clipk": ("clipk", False, False),
     "rearrange": ("Reshape", False, False), "swap_scaled": ("Transpose", False, False),
     "not_identity": ("Identity", False, False), "not_cast": ("Cast", False, False),
 }
@@ -341,9 +443,10 @@ def det(aval=BOOL0):
 PROGRAMS = {}
 
 
-def prog(name, fn, inputs, sites, differs, params=None, finding=None, feeds_flag=None, note="", x64=False):
+def prog(name, fn, inputs, sites, differs, params=None, finding=None, feeds_flag=None, note="", x64=False, same_name=False,
+         const_operands=None):
     PROGRAMS[name] = dict(fn=fn, inputs=inputs, sites=sites, differs=differs, params=params, finding=finding,
-                          feeds_flag=feeds_flag, note=note, x64=x64)
+                          feeds_flag=feeds_flag, note=note, x64=x64, same_name=same_name, const_operands=const_operands)
 
 
 X = [((2, 3), "float32")]
@@ -450,6 +553,53 @@ prog("lookalike_identity", lambda x: not_identity(x) * 2.0 + not_identity(x + 1.
      [S("not_identity", "not_identity", "", [F23]), S("not_identity", "not_identity", "", [F23])], "function named Identity")
 prog("lookalike_cast", lambda x: not_cast(x.astype(jnp.int32).astype(jnp.float32) * 1.5).astype(jnp.int32).astype(jnp.float32) + not_cast(x), X,
      [S("not_cast", "not_cast", "", [F23]), S("not_cast", "not_cast", "", [F23])], "function named Cast between Casts")
+
+
+# ---- distinct targets, same display name: identifiers must stay distinct and every call must reach ITS target's body
+bm2, ba2 = BlkMul(2.0), BlkAdd(2.0)
+fba, fbb = FBlockA(), FBlockB()
+ALONE = {"sn_scale": lambda x: sn_scale(x), "sn_shift": lambda x: sn_shift(x), "sn_outer": lambda x: sn_outer(x),
+         "BlkMul": lambda x: bm2(x), "BlkAdd": lambda x: ba2(x), "snu_a": lambda x: snu_a(x), "snu_b": lambda x: snu_b(x),
+         "FBlockA": lambda x: fba(x), "FBlockB": lambda x: fbb(x)}
+
+
+def sf(q, parent=None):
+    return S(q, q, "", [F23], parent=parent)
+
+
+prog("same_name_functions", lambda x: sn_scale(x) - sn_shift(x + 1.0) + sn_scale(x + 2.0), X,
+     [sf("sn_scale"), sf("sn_shift"), sf("sn_scale")], "decorated target (same display name)", same_name=True)
+prog("same_name_functions_swapped", lambda x: sn_shift(x) - sn_scale(x + 1.0) + sn_shift(x + 2.0) * sn_scale(x + 3.0), X,
+     [sf("sn_shift"), sf("sn_scale"), sf("sn_shift"), sf("sn_scale")], "decorated target (same display name, order)", same_name=True)
+prog("same_name_classes", lambda x: bm2(x) - ba2(x + 1.0) + bm2(x + 2.0), X,
+     [S("BlkMul", "bm2", "k=2", [F23]), S("BlkAdd", "ba2", "k=2", [F23]), S("BlkMul", "bm2", "k=2", [F23])],
+     "decorated class (same display name)", same_name=True)
+prog("same_name_factory_classes", lambda x: fba(x) - fbb(x + 1.0) + fba(x + 2.0) * fbb(x + 3.0), X,
+     [S("FBlockA", "fba", "", [F23]), S("FBlockB", "fbb", "", [F23]), S("FBlockA", "fba", "", [F23]), S("FBlockB", "fbb", "", [F23])],
+     "decorated class (same __name__, factory)", same_name=True)
+prog("same_name_unique", lambda x: snu_a(x) - snu_b(x + 1.0) + snu_a(x + 2.0), X,
+     [sf("snu_a"), sf("snu_b"), sf("snu_a")], "decorated target (same display name, unique)", same_name=True)
+prog("same_name_nested", lambda x: sn_outer(x) - sn_shift(x + 1.0) + sn_scale(x + 2.0), X,
+     [sf("sn_outer"), sf("sn_shift", 0), sf("sn_scale", 0), sf("sn_shift"), sf("sn_scale")],
+     "decorated target (same display name, nested)", same_name=True)
+
+# ---- call-site constants as operands: the key holds only their types, so the shared body must stay generic in them
+I0 = ((), "int32")
+F3 = ((3,), "float32")
+prog("const_operand_broadcast", lambda x: add_offset(x, OFF_A) * add_offset(x + 1.0, OFF_B), X,
+     [S("add_offset", "add_offset", "", [F23, FS]), S("add_offset", "add_offset", "", [F23, FS])], "call-site constant (scalar, broadcast_to)", const_operands=[1])
+prog("const_operand_update_slice", lambda x, r: write_row(write_row(x, r, P0), r * 2.0, P1), [((2, 3), "float32"), ((1, 3), "float32")],
+     [S("write_row", "write_row", "", [F23, F13, I0, ]), S("write_row", "write_row", "", [F23, F13, I0])], "call-site constant (start index)", const_operands=[2])
+prog("const_operand_mask", lambda x: masked(x, MASK_A) + masked(x * 2.0, MASK_B), X,
+     [S("masked", "masked", "", [F23, ((2, 3), "bool")]), S("masked", "masked", "", [F23, ((2, 3), "bool")])], "call-site constant (where mask)", const_operands=[1])
+prog("const_operand_take", lambda x: pick(x, IDX_A) + pick(x * 2.0, IDX_B), X,
+     [S("pick", "pick", "", [F23, ((2,), "int32")]), S("pick", "pick", "", [F23, ((2,), "int32")])], "call-site constant (take indices)", const_operands=[1])
+prog("const_operand_arith", lambda x: affine(x, W_A) - affine(x + 1.0, W_B) + affine(x, W_A * 2.0), X,
+     [S("affine", "affine", "", [F23, F3]), S("affine", "affine", "", [F23, F3]), S("affine", "affine", "", [F23, F3])], "call-site constant (array arithmetic)", const_operands=[1])
+prog("const_operand_reduce", lambda x: clipk(x, W_A) + clipk(x * 2.0, W_B), X,
+     [S("clipk", "clipk", "", [F23, F3]), S("clipk", "clipk", "", [F23, F3])], "call-site constant (max + reduced constant)", const_operands=[1])
+prog("const_operand_python_scalar", lambda x: add_offset(x, 2.5) * add_offset(x + 1.0, -1.0), X,
+     [S("add_offset", "add_offset", "", [F23, FS]), S("add_offset", "add_offset", "", [F23, FS])], "call-site constant (Python scalar, broadcast_to)", const_operands=[1])
 
 
 # control flow: a function inside a loop / branch body
